@@ -537,10 +537,46 @@ def discharge_site(eng, cf, cn, pidx, sidx, need):
                         v = const_value(a[5])
                         if v is not None and v + (1 if a[2] == ">" else 0) >= need:
                             return True, "", None
+            # strided position: pointer = base + a + c*v with a live bound K + c*v <= size, K >= a + need
+            lf = ptr_linear(cf, pa)
+            if lf is not None and lf[0] == pr.base:
+                form = lf[1]
+                vs = [k for k in form if k != 1 and form[k] != 0]
+                if len(vs) == 1 and form[vs[0]] > 0 and form.get(1, 0) >= 0:
+                    from rules.decoder_rules import bound_fact
+                    for a in fs:
+                        bf = bound_fact(cf, a, cs)
+                        if bf is not None and bf[2] == vs[0] and bf[1] == form[vs[0]] and bf[0] >= form.get(1, 0) + need and \
+                                eng.facts_lb(cf, cn, cs, pr.base)[0] >= form.get(1, 0):
+                            return True, "", None
             return False, "no live fact (%s - %s) >= %d" % (cs.split(":")[-1], sym, need), None
     if pr.kind in ("vec", "obj", "localobj", "call", "element"):
         return True, "object-owned buffer (class invariant, R2/R3)", None
     return False, "pointer of unknown provenance (%r)" % pr, None
+
+
+def ptr_linear(f, e):
+    """(pointer parameter decl, {sym: coeff, 1: const}) for a byte-pointer expression param + linear offset,
+    symbols being the locals the function modifies; None otherwise."""
+    defs = local_defs(f)
+    base = []
+
+    def syms(x):
+        if x.get("k") == "ref":
+            t = x.get("t") or {}
+            if x.get("dk") == "param" and t.get("k") == "ptr":
+                if (t.get("psize") or 1) != 1:
+                    return None
+                base.append(x["decl"])
+                return "P"
+            if x.get("dk") == "local" and len(defs.get(x["decl"], [])) != 1:
+                return x["decl"]
+        return None
+    form = _linear(f, e, syms)
+    if form is None or form.get("P") != 1 or len(set(base)) != 1:
+        return None
+    form = {k: v for k, v in form.items() if k != "P"}
+    return base[0], form
 
 
 def expr_lb(eng, f, e, self_field=None, depth=4):
@@ -1086,16 +1122,16 @@ def justify_copy(eng, f, c, dst, src, ln, managed=False):
             if pr2.kind == "vec" and "payloadData" in (pr2.base or "") and e2.get("k") == "bin":
                 offv = strip_all_casts(e2["r"])
                 offdefs = local_defs(f).get(offv.get("decl"), []) if offv.get("k") == "ref" else [offv]
-                offc = canon(strip_all_casts(offdefs[0])) if len(offdefs) == 1 else None
+                offc = facts.xcanon(f, offdefs[0]) if len(offdefs) == 1 else None
                 for a in fs:
                     if a[0] == "cmp" and "payloadData" in a[1] and "size()" in a[1] and a[2] in (">=", ">"):
                         # size >= off + L   /  size > off + L - 1
                         form_ok = False
                         r = strip_all_casts(a[5])
-                        if r.get("k") == "bin" and r.get("op") == "+" and const_value(r["r"]) is not None and offc and canon(strip_all_casts(r["l"])) == offc:
+                        if r.get("k") == "bin" and r.get("op") == "+" and const_value(r["r"]) is not None and offc and facts.xcanon(f, r["l"]) == offc:
                             cv = const_value(r["r"]) + (1 if a[2] == ">" else 0)
                             form_ok = cv >= L
-                        elif offc and canon(r) == offc:
+                        elif offc and facts.xcanon(f, r) == offc:
                             form_ok = (1 if a[2] == ">" else 0) >= L
                         if form_ok:
                             rd_ok = True
